@@ -8,6 +8,7 @@ package daemon
 
 import (
 	"context"
+	"runtime"
 	"encoding/json"
 	"fmt"
 	"os"
@@ -34,6 +35,9 @@ type c04Op struct {
 	A    c04Req  `json:"a"`
 	B    *c04Req `json:"b,omitempty"`
 	Gate int     `json:"gate,omitempty"`
+	// timedcancel: A's context is cancelled CancelUS microseconds after it was issued,
+	// without parking (reaches the windows between two pool-internal steps)
+	CancelUS int `json:"cancel_us,omitempty"`
 }
 
 type c04Scenario struct {
@@ -74,7 +78,7 @@ func c04Gen(t *rapid.T) c04Scenario {
 	s := c04Scenario{Cfg: vsGenCfg(t)}
 	n := rapid.IntRange(1, vt.Scale(15, 40)).Draw(t, "nops")
 	for i := 0; i < n; i++ {
-		o := c04Op{Kind: rapid.SampledFrom([]string{"req", "req", "req", "req", "overlap", "overlap", "cancel", "cancel", "recreate"}).Draw(t, "opkind")}
+		o := c04Op{Kind: rapid.SampledFrom([]string{"req", "req", "req", "req", "overlap", "overlap", "cancel", "cancel", "timedcancel", "timedcancel", "recreate"}).Draw(t, "opkind")}
 		o.A = c04GenReq(t, "a")
 		switch o.Kind {
 		case "overlap":
@@ -86,6 +90,9 @@ func c04Gen(t *rapid.T) c04Scenario {
 			o.Gate = rapid.IntRange(1, 6).Draw(t, "gate")
 		case "cancel":
 			o.Gate = rapid.IntRange(1, 6).Draw(t, "gate")
+		case "timedcancel":
+			o.A.Kind = "add"
+			o.CancelUS = rapid.IntRange(1, 1500).Draw(t, "cancelus")
 		}
 		s.Ops = append(s.Ops, o)
 	}
@@ -201,7 +208,28 @@ type c04Result struct {
 	err   error
 }
 
+// drain waits until the goroutines a request left behind (the pool's per-request commit /
+// allocWorker goroutines keep running after a cancelled request has returned) are gone.
+// Without this barrier such a late goroutine can re-mark and release an address that has
+// meanwhile been given to another pod (part of known finding
+// C04-cancelled-repeat-add-releases-held); the harness excludes that schedule by
+// construction so that every other ownership assertion stays exact.
+func (x *c04World) drain(baseline int) {
+	for i := 0; i < 4000; i++ {
+		if runtime.NumGoroutine() <= baseline {
+			return
+		}
+		time.Sleep(250 * time.Microsecond)
+	}
+}
+
 func (x *c04World) issue(ctx context.Context, r c04Req, cid string) c04Result {
+	base := runtime.NumGoroutine()
+	defer x.drain(base)
+	return x.issue0(ctx, r, cid)
+}
+
+func (x *c04World) issue0(ctx context.Context, r c04Req, cid string) c04Result {
 	pod := c04PodName(r.Pod)
 	switch r.Kind {
 	case "add":
@@ -282,7 +310,7 @@ func (x *c04World) judge(r c04Req, cid string, res c04Result, viewBefore string,
 			if m.cur != nil {
 				x.labels["repeat-add"] = true
 				if m.cur.v4 != v4 || m.cur.v6 != v6 {
-					if m.cur.uncertain && !x.noGuard && vt.Known("C04-cancelled-repeat-add-releases-held") {
+					if (m.cur.uncertain || m.tainted) && !x.noGuard && vt.Known("C04-cancelled-repeat-add-releases-held") {
 						c.Label("known:C04-cancelled-repeat-add-releases-held")
 					} else {
 						c.Fatalf("repeated ADD for %s returned %s/%s but its completed ADD returned %s/%s (uncertain=%v)", name, v4, v6, m.cur.v4, m.cur.v6, m.cur.uncertain)
@@ -451,12 +479,22 @@ func c04RunOpt(c *vt.Ctx, s c04Scenario, noGuard bool) {
 			x.judge(o.A, cid, res, before, false)
 		case "overlap", "cancel":
 			x.stepParked(o)
+		case "timedcancel":
+			cid := x.cidFor(o.A)
+			before := x.podView(o.A.Pod)
+			ctx, cancel := context.WithTimeout(context.Background(), c04ReqTimeout)
+			tm := time.AfterFunc(time.Duration(o.CancelUS)*time.Microsecond, cancel)
+			res := x.issue(ctx, o.A, cid)
+			tm.Stop()
+			cancel()
+			x.labels["timed-cancel"] = true
+			x.judge(o.A, cid, res, before, res.err != nil)
 		}
 	}
 	for l := range x.labels {
 		c.Label(l)
 	}
-	if x.labels["overlap-parked"] || x.labels["cancel-parked"] || x.labels["stale-del"] || x.labels["stale-get"] {
+	if x.labels["overlap-parked"] || x.labels["cancel-parked"] || x.labels["timed-cancel"] || x.labels["stale-del"] || x.labels["stale-get"] {
 		c.NonTrivial()
 	}
 }
@@ -507,7 +545,7 @@ func (x *c04World) stepParked(o c04Op) {
 	cidB := x.cidFor(b)
 	same := b.Pod == o.A.Pod
 	beforeB := x.podView(b.Pod)
-	midStore, midStatus := x.w.storeDump(), x.w.statusDump()
+	midStore := x.w.storeDump()
 	ctxB, cancelB := context.WithTimeout(context.Background(), 2*time.Second)
 	defer cancelB()
 	doneB := make(chan c04Result, 1)
@@ -529,9 +567,16 @@ func (x *c04World) stepParked(o c04Op) {
 			close(x.gate.release)
 			c.Fatalf("concurrent %s for %s while its %s was in flight (parked at %s) was not rejected as 'processing': err=%v addrs=%s", b.Kind, c04PodName(b.Pod), o.A.Kind, x.gate.where, resB.err, fmtAddrs(resB.confs))
 		}
-		if st, ss := x.w.storeDump(), x.w.statusDump(); st != midStore || ss != midStatus {
+		// "has no effect": the store is untouched and nothing the daemon holds for the pod moved
+		// (the whole pool status is not compared: workers of earlier cancelled requests may still
+		// be assigning or handing back addresses in the background)
+		if st := x.w.storeDump(); st != midStore {
 			close(x.gate.release)
-			c.Fatalf("rejected concurrent %s for %s had an effect:\nstore before %s\nstore after  %s\nstatus before %s\nstatus after  %s", b.Kind, c04PodName(b.Pod), midStore, st, midStatus, ss)
+			c.Fatalf("rejected concurrent %s for %s changed the store:\nbefore %s\nafter  %s", b.Kind, c04PodName(b.Pod), midStore, st)
+		}
+		if v := x.podView(b.Pod); v != beforeB {
+			close(x.gate.release)
+			c.Fatalf("rejected concurrent %s for %s had an effect on the pod's allocation:\nbefore %s\nafter  %s", b.Kind, c04PodName(b.Pod), beforeB, v)
 		}
 		close(x.gate.release)
 		resA = <-doneA
